@@ -829,6 +829,8 @@ class Evaluator(object):
             if d is None and isinstance(n.ctx, ast.Load) and getattr(
                     self, 'ctx', None) is not None:
                 d = self._const_scalar(n)
+                if d is None:
+                    d = self._class_function_alias(n)
             if d is not None:
                 return self.ev(d, st)
         base = self.k(n.value, st)
@@ -2407,7 +2409,11 @@ class Summarizer(Evaluator):
                 if ok_ == sk:
                     return True
                 if ok_[0] in ('const', 'num', 'tuple', 'list', 'comp',
-                              'strcat', 'fmt'):
+                              'strcat', 'fmt', 'poly', 'sub', 'attr',
+                              'dict', 'set'):
+                    # the sentinel is never stored anywhere (only returned
+                    # and compared): no container, attribute or arithmetic
+                    # result can be it
                     return False
                 if ok_[0] == 'call':
                     fk = ok_[1]
@@ -2465,6 +2471,58 @@ class Summarizer(Evaluator):
                         for t in x.targets) for x in c.body):
                 return True
         return False
+
+    def _class_function_alias(self, node):
+        """`self.NAME` where the class (read for: ctx class first, then its
+        module-local bases) binds `NAME = staticmethod(f)` or `NAME = f` once
+        and no subclass binds it again: the expression `f`."""
+        if self.ctx is None or not (isinstance(node, ast.Attribute)
+                                    and isinstance(node.value, ast.Name)
+                                    and node.value.id in ('self', 'cls')):
+            return None
+        rel, mod, cls = self.ctx
+        if cls is None:
+            return None
+        byname = dict((c.name, c) for c in mod.body
+                      if isinstance(c, ast.ClassDef))
+        cur, seen = cls, set()
+        while cur is not None and cur.name not in seen:
+            seen.add(cur.name)
+            binds = [x for x in cur.body if isinstance(x, ast.Assign) and any(
+                isinstance(t, ast.Name) and t.id == node.attr
+                for t in x.targets)]
+            if any(isinstance(f, ast.FunctionDef) and f.name == node.attr
+                   for f in cur.body):
+                return None
+            if binds:
+                if len(binds) != 1 or self._rebound_below(mod, cls,
+                                                          node.attr):
+                    return None
+                v = binds[0].value
+                if isinstance(v, ast.Call) and isinstance(
+                        v.func, ast.Name) and v.func.id == 'staticmethod' \
+                        and len(v.args) == 1 and not v.keywords:
+                    v = v.args[0]
+                elif not isinstance(v, ast.Name):
+                    return None
+                if isinstance(v, (ast.Name, ast.Attribute)) and all(
+                        isinstance(x, (ast.Name, ast.Attribute, ast.Load))
+                        for x in ast.walk(v)):
+                    from .match import readonly_literal_table
+                    if any(isinstance(x, ast.Attribute) and x.attr ==
+                           node.attr and isinstance(x.ctx, (ast.Store,
+                                                            ast.Del))
+                           for x in ast.walk(mod)):
+                        return None
+                    return v
+                return None
+            nxt = None
+            for b in cur.bases:
+                if isinstance(b, ast.Name) and b.id in byname:
+                    nxt = byname[b.id]
+                    break
+            cur = nxt
+        return None
 
     def _const_scalar(self, node):
         """`self.NAME` / `cls.NAME` where NAME is bound once at class level
